@@ -14,13 +14,16 @@ os._exit)} is then executed.  Observer = a fresh Context on the same directory w
 """
 import itertools
 import os
+import select
 import shutil
+import signal
+import time
 
 from hypothesis import strategies as st
 
 import strax
 from vf import graphs
-from vf.core import SubCheck, Violation
+from vf.core import Inconclusive, SubCheck, Violation
 from vf.faults.fsfaults import FSFaults
 from vf.findings import signature
 from vf.props import c01
@@ -103,6 +106,9 @@ def observe(d, classes, run_dir, ref, t1u):
     return out
 
 
+FORK_TIMEOUT_S = 300  # wall-clock budget of one forked execution (a normal one takes < 1 s)
+
+
 def fork_run(fn):
     """Run fn() in a forked child; returns ('died', None) if it was killed by the fault layer, else
     ('returned'|'raised', info)."""
@@ -123,7 +129,17 @@ def fork_run(fn):
             os._exit(code)
     os.close(w)
     data = b""
+    deadline = time.monotonic() + FORK_TIMEOUT_S
     while True:
+        # a forked child can deadlock on a lock that another (non-strax) thread of the parent held at fork
+        # time; that is a harness artefact: kill it and call the execution inconclusive, never a violation
+        left = deadline - time.monotonic()
+        ready = select.select([r], [], [], max(left, 0))[0] if left > 0 else []
+        if not ready:
+            os.kill(pid, signal.SIGKILL)
+            os.waitpid(pid, 0)
+            os.close(r)
+            raise Inconclusive(f"forked child made no progress for {FORK_TIMEOUT_S} s (killed)")
         b = os.read(r, 4096)
         if not b:
             break
